@@ -37,11 +37,14 @@ func acceptedMax(op token.Token, k int64) (int64, bool) {
 }
 
 func storedConst(fn *ssa.Function, suffix string) (int64, token.Pos, ssa.Value, bool) {
-	for _, b := range fn.Blocks {
-		for _, in := range b.Instrs {
-			if st, ok := in.(*ssa.Store); ok && strings.HasSuffix(fieldPath(st.Addr), suffix) {
-				k, isk := constIntDeep(st.Val)
-				return k, st.Pos(), st.Val, isk
+	// the handler itself, or a function literal written inside it (the body handed to a "with the inode locked" helper)
+	for _, f := range lexicalFamily(fn) {
+		for _, b := range f.Blocks {
+			for _, in := range b.Instrs {
+				if st, ok := in.(*ssa.Store); ok && strings.HasSuffix(fieldPath(st.Addr), suffix) {
+					k, isk := constIntDeep(st.Val)
+					return k, st.Pos(), st.Val, isk
+				}
 			}
 		}
 	}
